@@ -263,7 +263,7 @@ theorem zip_map_self (P : Nat → List D) : ∀ lis : List Nat, (lis.map P).zip 
   | cons a r ih => simp [ih]
 
 theorem updateProofs_spec [BEq D] [LawfulBEq D] {n : Nat} {g0 g : Nat → D} {S : List Nat} {m : Model.MmrE.AMap D}
-    (inv : Inv H n g0 g S m) (hn : n < 2 ^ 63) : ∀ (lis : List Nat) (i0 : Nat), (∀ i ∈ lis, i < n) →
+    (inv : Inv H n g0 g S m.get?) (hn : n < 2 ^ 63) : ∀ (lis : List Nat) (i0 : Nat), (∀ i ∈ lis, i < n) →
     updateProofs (toD m) (lis.map fun t => (authPathOf H g0 n t, t)) i0
       = some (lis.map (authPathOf H g n),
           ((List.range lis.length).filter fun k =>
@@ -320,7 +320,7 @@ theorem batch_mutate_refines_model [BEq D] [LawfulBEq D] (n : Nat) (f : Nat → 
                 (Spec.MmrAcc.authPath H n f (tracked.getD k 0)).getD []
                   != (Spec.MmrAcc.authPath H n (applyUpdates f ms) (tracked.getD k 0)).getD []) := by
   have hnd' : (ms.reverse.map (·.1)).Nodup := by rw [List.map_reverse]; exact nodup_rev _ hnd
-  obtain ⟨m', hloop, inv⟩ := mutationsLoop_spec H n hn f ms.reverse [] f [] (Inv.empty H n f)
+  obtain ⟨m', hloop, inv⟩ := mutationsLoop_spec H n hn f ms.reverse [] f [] (Inv.empty H n f _ AMap.get?_nil)
     (fun p hp => ⟨hms p (List.mem_reverse.mp hp), by simp⟩) hnd'
   rw [applyL_reverse ms f hnd] at hloop inv
   have hrep := updateProofs_spec H inv hn tracked 0 htr
